@@ -151,14 +151,14 @@ class RunTest:
         test_method = self.case._get_test_method()
         skip_case = getattr(self.case, "__unittest_skip__", False)
         if skip_case or getattr(test_method, "__unittest_skip__", False):
-            self.result.addSkip(
-                self.case,
-                reason=getattr(
-                    self.case if skip_case else test_method,
-                    "__unittest_skip_why__",
-                    None,
-                ),
+            reason = getattr(
+                self.case if skip_case else test_method,
+                "__unittest_skip_why__",
+                None,
             )
+            if reason is None:
+                reason = "no reason given."
+            self.result.addSkip(self.case, reason=str(reason))
             return
 
         if self.exception_caught is self._run_user(self.case._run_setup, self.result):
@@ -211,7 +211,7 @@ class RunTest:
         if failing:
             return self.exception_caught
 
-    def _run_user(self, fn, *args, **kwargs):
+    def _run_user(self, fn, /, *args, **kwargs):
         """Run a user supplied function.
 
         Exceptions are processed by `_got_user_exception`.
